@@ -37,17 +37,25 @@ def run_live(ctx, binary, data, n):
                 got.extend(b)
     t = threading.Thread(target=rd)
     t.start()
-    p.stdin.write(data)
-    p.stdin.flush()
+    try:
+        p.stdin.write(data)
+        p.stdin.flush()
+    except (BrokenPipeError, OSError):
+        pass                                # the program has gone already: its exit status and what it wrote are judged below
     deadline = time.time() + 8
     while time.time() < deadline:
         with lock:
             if len(got) >= len(data):
                 break
+        if p.poll() is not None:
+            break
         time.sleep(0.01)
     with lock:
         while_open = bytes(got)
-    p.stdin.close()
+    try:
+        p.stdin.close()
+    except (BrokenPipeError, OSError):
+        pass
     try:
         rc = p.wait(timeout=60)
         ret = "" if rc == 0 else "exit %d" % rc
@@ -137,8 +145,11 @@ def run_logger1(ctx, binary, data, seed, chunk, pause_ms, n, paced=False, pre=b"
                 time.sleep(rng.random() * 0.004)
         if not stall_out:
             p.stdin.close()
-    except BrokenPipeError:
-        pass
+    except (BrokenPipeError, OSError):
+        try:
+            p.stdin.close()
+        except OSError:
+            pass
     try:
         rc = p.wait(timeout=120)
         ret = "" if rc == 0 else "exit %d" % rc
